@@ -23,6 +23,24 @@ CLAIMED = {
     "C07": ("Lean 4 theorems about the executable cost model for every cost-model value (any feature count, weights, nested rates, both aggregations, any state pair) over any linearly ordered field + bit-exact correspondence run of the real CostModel (built by CostModel::new over a real StateModel) against the model at IEEE doubles + direct oracle on the real outputs",
             "Proof: strict positivity of traversal_cost / access_cost and of EdgeTraversal::total_cost (= access + (total - access)), non-negativity of cost_estimate, exact return/none conditions, the sum formula (weights x rated state changes + per-edge / per-turn surcharges; floor exactly when <= 0), linearity in the weights, zero-weight features ignored (and removable under sum), the product formula under mul aggregation, and CostModel::new rejecting exactly zero-sum weights are Lean theorems for all inputs; the floor constant is regenerated from the source each run. The hand-written model is tied to the code by a bit-exact differential run over random configurations (every rate constructor, Combined nested to depth 3, both aggregations, zero/negative/absent weights, all delta signs, lookup hits and misses, short state vectors). f64 rounding is outside the theorems: the oracle reports the one place where it breaks the property (a large access share absorbs the floored total in access + (total - access)).",
             "§5 C07"),
+    "C02": ("Lean 4 proof of label optimality of the A*/Dijkstra loop model (invariants S,Q,K over every schedule, with re-opening) + Bellman-Ford oracle and bit-exact correspondence",
+            "Proof: for state-independent positive edge costs and edge-local validity, the destination label returned by the loop model equals the minimum walk cost — Dijkstra unconditionally, A* for every admissible heuristic (consistent heuristics and pointwise smaller ones are admissible) — for every instance, direction and every schedule; Dijkstra and A* labels coincide. The model is tied to the code bit for bit on random full-stack instances (real cost model service glue, distance / speed models, all units); an independent Bellman-Ford oracle over per-edge costs from the real models checks optimality of what the code returns.",
+            "§5 C02, App. A.1"),
+    "C03": ("Lean 4 theorems on state accumulation, traversal models, turn classification (decide +kernel on the regenerated table) and heading wrap + per-edge re-accumulation oracle and bit-exact correspondence",
+            "Proof (component level): add_distance / add_time touch exactly their slot and add the delta in the feature unit; initial state = declared values; distance traversal adds the converted edge length; turn classification is total on [-180,180] and rejects outside; bearing wrap lands in [-180,180] for headings in [0,360). Route-level accumulation is tied by the bit-exact correspondence of states and costs along every route and checked by an oracle that re-accumulates distance, time (table speed + turn delays classified independently) and cost edge by edge with the real unit functions.",
+            "§5 C03"),
+    "C04": ("Lean 4 theorems on every frontier model and their combination over the generated unit tables + raw-restriction oracle and bit-exact correspondence",
+            "Proof (model level): road-class membership, vehicle restrictions (inequality after conversion to the restriction unit, per axle), turn restrictions, edge cuts; combination = conjunction with early refusal. Search-level use (each relaxed edge is submitted with state and last edge) is in the loop model tied bit for bit to the code; the oracle checks every tree entry and route edge and every consecutive route pair against the raw restriction inputs.",
+            "§5 C04"),
+    "C05": ("Lean 4 proof that the loop model reports no-path iff the target is unreachable and that a destination-less run labels exactly the reachable set (closedness invariant K) + BFS oracle and bit-exact correspondence",
+            "Proof: for edge-local validity, any vertex heuristic (any weight factor) and every schedule: a result implies reachability, no-path implies unreachability, and among these two outcomes each happens iff; a destination-less search labels precisely the reachable vertices, each with its least cost. Tied to the code by the bit-exact correspondence; BFS oracle over permitted edges on what the code returns.",
+            "§5 C05, App. A.1"),
+    "C07": ("Lean 4 theorems on the cost model over any ordered field (positivity, floor, sum formula, linearity, zero weights, mul aggregation, nested rates by mutual induction) + bit-exact correspondence on the three API functions and EdgeTraversal",
+            "Proof: every clause of the property is a theorem about the cost model for all feature counts, weights, rates of any nesting, network rates, aggregations and state pairs over any linearly ordered field; the model is tied to CostModel::new / traversal_cost / access_cost / cost_estimate / EdgeTraversal bit for bit. IEEE rounding is outside the theorems (one rounding-only finding is recorded).",
+            "§5 C07"),
+    "C10": ("Lean 4 theorems on the termination model (explicit outcome, exact firing conditions, next-check stop) + virtual-clock correspondence and limit oracle",
+            "Proof (model level): iteration, size and runtime limits fire exactly as stated, termination is always the explicit `terminated` naming the limit, frequency 0 is the only failing configuration, an exhausted budget stops at the next scheduled check. The call site (top of every loop turn) is in the loop model tied bit for bit to the code under a virtual clock hook; the oracle checks bounds, explicitness, and equality with the unlimited run.",
+            "§5 C10"),
 }
 
 NOT_YET = {
